@@ -13,9 +13,9 @@ def toRef (st : St) (code : Bytes) : Ref.State := ⟨st.stack, st.alt, st.vfExec
 
 /-- one opcode arm: the model succeeds exactly when the reference does, with corresponding
     states (and an unchanged `pbegincodehash`); any model error ↔ the reference returns false -/
-def Sim (code : Bytes) (pb : Nat) (m : M St) (r : Option Ref.State) : Prop :=
+def Sim (code : Bytes) (st : St) (m : M St) (r : Option Ref.State) : Prop :=
   match m with
-  | .ok st' => r = some (toRef st' code) ∧ st'.pbegin = pb
+  | .ok st' => r = some (toRef st' code) ∧ st'.pbegin = st.pbegin ∧ st'.nOpCount = st.nOpCount
   | .error _ => r = none
 
 /-- the exception `raiseNamed` raises (EvalScriptError, or KeyError if the opcode had no name) -/
